@@ -107,6 +107,12 @@ def run(ctx):
         if c.get("wit"):
             pc["wit"] = c["wit"]
         cases.append(pc)
+    # outside the model's grammar (no `[` inside a class there): class bodies that only LOOK like a POSIX class while their
+    # punctuation is escaped - `[[\:alpha\:]]` is the class {[ : a l p h} followed by `]`; unescaping makes it [[:alpha:]].
+    # Judged by regexp alone (no model prediction for these).
+    nposix_end = len(cases)
+    for pat in lookalikes():
+        cases.append({"id": len(cases), "pat": pat, "alpha": sorted(set(ch for ch in pat if ch not in "\\^"))[:9]})
     inp, outp = ctx.path("c11_cases.json"), ctx.path("c11_out.json")
     json.dump(cases, open(inp, "w"))
     work = os.path.dirname(ctx.path("c11_work", "x"))
@@ -124,8 +130,17 @@ def run(ctx):
         ctx.fail("ConcurrentRun error", "regexpSimplify failed when several instances ran at once: %s" % e[:300], {"error": e})
     invalid = drift = validated = 0
     kinds = collections.Counter()
-    posix_sites = len(cases) - nmodel
-    for c, r in zip(cases[nmodel:], res[nmodel:]):
+    posix_sites = nposix_end - nmodel
+    look_rewritten = 0
+    for c, r in zip(cases[nposix_end:], res[nposix_end:]):
+        look_rewritten += 1 if r.get("sugg") else 0
+        if r.get("verdict") and r["valid"]:
+            esc = "colon" if "\\:" in c["pat"] else "other"
+            ctx.fail("lookalike %s %s" % (r["verdict"].split(" ")[0], esc), "regexpSimplify rewrites `%s` as `%s`: %s"
+                     % (c["pat"], r.get("sugg"), explain(r)), {"pattern": c["pat"], "suggestion": r.get("sugg"), "verdict": r["verdict"], "witness": r.get("witness")})
+    if look_rewritten < 5:
+        raise vlib.Infra("the real checker rewrote only %d of the %d POSIX-lookalike patterns" % (look_rewritten, len(cases) - nposix_end))
+    for c, r in zip(cases[nmodel:nposix_end], res[nmodel:nposix_end]):
         if r.get("verdict") and r["valid"]:
             ctx.fail("posix %s" % r["verdict"].split(" ")[0], "regexpSimplify rewrites the argument of regexp.MustCompilePOSIX `%s` as `%s`: %s"
                      % (c["pat"], r.get("sugg"), explain(r)), {"pattern": c["pat"], "suggestion": r.get("sugg"), "verdict": r["verdict"], "witness": r.get("witness")})
@@ -177,12 +192,23 @@ def run(ctx):
         "states": st, "transitions": tr, "traces_validated_against_impl": nmodel - invalid + posix_sites,
         "patterns": nmodel, "patterns_rejected_by_regexp": invalid, "rewritten_by_real_checker": rewritten,
         "model_output_differs_from_real": drift, "matcher_results_validated": validated, "wrong_rewrites_by_kind": dict(kinds),
-        "posix_call_sites": posix_sites, "concurrent_repetitions": out.get("conc_runs"), "generated_files": out.get("files"), "design": design, "exhaustive": True,
+        "posix_call_sites": posix_sites, "posix_lookalike_patterns": len(cases) - nposix_end, "concurrent_repetitions": out.get("conc_runs"), "generated_files": out.get("files"), "design": design, "exhaustive": True,
         "samples": [{"pattern": c["pat"], "suggestion": r.get("sugg")} for c, r in list(zip(cases, res))[:3]],
     }
     return ctx.finish("model_checking", cov, ["bounded ASTs (two operator levels plus contexts) over a 17-symbol alphabet; subjects up to length 4",
                                               "flags, anchors, Unicode classes and \\Q..\\E are not enumerated",
                                               "repeats of operands that can match the empty string are not enumerated"])
+
+
+def lookalikes():
+    out = []
+    for esc in ("\\:", "\\.", "\\="):
+        plain = esc[1]
+        for name in ("alpha", "digit", "a", "ab"):
+            body = "[" + esc + name + esc
+            out += ["[" + body + "]]", "[x" + body + "]]", "[" + body + "]x]", "[^" + body + "]]", "[\\[" + esc + name + esc + "]]",
+                    "[[" + plain + name + esc + "]]", "[[" + esc + name + plain + "]]", "[" + body + "]+", "(?:[" + body + "]])"]
+    return sorted(set(out))
 
 
 def pairs(finds):
